@@ -445,7 +445,7 @@ func (x *Exec) applyContract(fr *Frame, st *State, fc *FuncContract, callee *ssa
 	}
 	x.frameEpoch(st, mods)
 	x.restorePrivateBoxes(st, savedBoxes)
-	for g := range mods.ghosts {
+	for _, g := range sortedStrings(mods.ghosts) {
 		assigned := false
 		for _, c := range fc.Exits {
 			if c.LHS == nil && c.Name == g {
@@ -545,6 +545,7 @@ func (x *Exec) execBuiltin(fr *Frame, st *State, b *ssa.Builtin, cc *ssa.CallCom
 		case VScalar:
 			switch cc.Args[0].Type().Underlying().(type) {
 			case *types.Map:
+				x.guardCheck(st, x.mapGuard(v.T), false, pos, "len of the map")
 				return VScalar{x.mapLen(st, cc.Args[0].Type(), v.T)}
 			case *types.Chan:
 				r := x.fresh("chanlen", SInt)
@@ -577,6 +578,7 @@ func (x *Exec) execBuiltin(fr *Frame, st *State, b *ssa.Builtin, cc *ssa.CallCom
 		return x.execCopy(fr, st, cc, pos)
 	case "delete":
 		m := arg(0).(VScalar).T
+		x.guardCheck(st, x.mapGuard(m), true, pos, "delete from the map")
 		x.mapDelete(st, cc.Args[0].Type(), m, x.keyTerm(arg(1)))
 		return nil
 	case "close":
